@@ -3,7 +3,7 @@
    control script (play / pause / resume / stop / close in any order, repeated close, play after
    close), any number of players, any audio length, wait true or false. *)
 From Coq Require Import List Bool Arith ZArith.
-From AL Require Import C17.Model C17.Inv C17.Spec C17.Measure C17.Proofs_Total C17.Proofs_Chunks C17.Proofs_Multi.
+From AL Require Import C17.Model C17.Inv C17.Spec C17.Measure C17.Proofs_Total C17.Proofs_Chunks C17.Proofs_Multi C17.Rec C17.Proofs_Rec.
 Import ListNotations.
 
 (* each lock has at most one holder: the threads whose program counter is inside a critical section
@@ -106,6 +106,38 @@ Theorem C17_managers_reachable : forall waits_scripts sched m s,
   reachable s.
 Proof. exact managers_reachable. Qed.
 Print Assumptions C17_managers_reachable.
+
+(* ---- recordings (Rec.v: record / RecStream.stop / take / the drain loop of close), for EVERY history:
+   every open device stream of a recording is registered in manager._recordings and terminate is
+   called at most once; right after the first close the registry is empty, every stream opened by
+   record is closed - whatever was stopped, consumed or finished by itself before, in any position -
+   and terminate has been called exactly once; it stays so unless record is called again *)
+Theorem C17_rec_registered : forall h, registered (rfinal h) /\ rterminated (rfinal h) <= 1.
+Proof. exact rec_registered_all. Qed.
+Print Assumptions C17_rec_registered.
+
+Theorem C17_rec_after_close : forall h, rfinished (rfinal h) = false ->
+  let s := rfinal (h ++ [ORClose]) in
+  recs s = [] /\ Forall (fun r => r_open r = false) (rall s) /\ rterminated s = 1 /\ rfinished s = true.
+Proof. exact rec_after_close_all. Qed.
+Print Assumptions C17_rec_after_close.
+
+Theorem C17_rec_stays_closed : forall h2 s, forallb no_record h2 = true -> recs s = [] ->
+  recs (fst (rrun s h2)) = [].
+Proof. exact rec_stays_closed. Qed.
+Print Assumptions C17_rec_stays_closed.
+
+(* three recordings; the middle one is stopped and consumed to its end (removed from a non-last
+   position), the first one finishes by itself on a device error; close drains the last one *)
+Example C17_nonvacuous_recordings :
+  let h := [ORecord 2 5; ORecord 2 5; ORecord 3 1; ORTake 1 3; ORStop 1; ORTake 1 9; ORTake 0 2;
+            ORTake 2 4; ORClose] in
+  snd (rrun rinit h) = [RNone; RNone; RNone; RSamples [1000; 1001; 1002]%Z; RNone; RSamples [1003]%Z;
+                        RSamples [0; 1]%Z; RRaise; RNone]
+  /\ recs (rfinal (firstn 8 h)) = [0] /\ recs (rfinal h) = [] /\ rterminated (rfinal h) = 1
+  /\ map r_open (rall (rfinal h)) = [false; false; false].
+Proof. repeat split; vm_compute; reflexivity. Qed.
+Print Assumptions C17_nonvacuous_recordings.
 
 (* ---- non-vacuity: concrete reachable states satisfying the hypotheses of the theorems above *)
 Definition ex_script : list cmd := [CPlay 2 [1; 2; 3]%Z; CPause 0; CClose; CPlay 2 [5]%Z].
